@@ -65,4 +65,21 @@ impl BindgenContext {
 pub open spec fn sig_type(f: &Function, ctx: &BindgenContext) -> Type { ctx.s_item(f.s_signature().0).s_kind().s_type() }
 pub open spec fn method_sig_type(m: &Method, ctx: &BindgenContext) -> Type { sig_type(&ctx.s_item(m.s_signature().0).s_kind().s_function(), ctx) }
 
+// ---- the block-pointer arm of <Type as CodeGenerator>::codegen (--generate-block)
+#[verifier::external_body] pub struct Tok { _p: core::marker::PhantomData<()> }
+pub struct ItemResolver { pub id: ItemId, pub refs: bool, pub aliases: bool }
+impl TypeId { pub fn into_resolver(self) -> (r: ItemResolver) ensures r == (ItemResolver { id: self.0, refs: false, aliases: false }) { ItemResolver { id: self.0, refs: false, aliases: false } } }
+// where resolution ends is an uninterpreted function of the IR and of WHAT is looked through
+pub uninterp spec fn s_resolved(ctx: &BindgenContext, id: ItemId, refs: bool, aliases: bool) -> ItemId;
+impl ItemResolver {
+    pub fn through_type_refs(self) -> (r: ItemResolver) ensures r == (ItemResolver { refs: true, ..self }) { ItemResolver { id: self.id, refs: true, aliases: self.aliases } }
+    pub fn through_type_aliases(self) -> (r: ItemResolver) ensures r == (ItemResolver { aliases: true, ..self }) { ItemResolver { id: self.id, refs: self.refs, aliases: true } }
+    #[verifier::external_body] pub fn resolve<'a>(self, ctx: &'a BindgenContext) -> (r: &'a Item) ensures *r == ctx.s_item(s_resolved(ctx, self.id, self.refs, self.aliases)) { unimplemented!() }
+}
+impl Item { #[verifier::external_body] pub fn canonical_name(&self, ctx: &BindgenContext) -> (r: String) { unimplemented!() } }
+impl BindgenContext { #[verifier::external_body] pub fn resolve_type(&self, id: TypeId) -> (r: &Type) ensures *r == self.s_item(id.0).s_kind().s_type() { unimplemented!() } }
+pub mod utils {
+    #[verifier::external_body] pub fn fnsig_block(ctx: &super::BindgenContext, sig: &super::FunctionSig) -> (r: super::Tok) { unimplemented!() }
+}
+
 } // verus!
